@@ -19,7 +19,7 @@ pub const NAMES: [&str; 11] = [
 
 const H: i64 = 3600;
 
-fn tree(t: &[i64; 11]) -> TreeSpec {
+fn tree(t: &[i64; 11], ta_payload: bool) -> TreeSpec {
     let mut ta = CaSpec::new("ta0", 0, "ta0.example", "repo");
     ta.v4 = vec![(Ipv4Addr::new(10, 0, 0, 0), 8)];
     ta.asns = vec![(64496, 64511)];
@@ -27,6 +27,13 @@ fn tree(t: &[i64; 11]) -> TreeSpec {
     ta.mft_ee_not_after = t[1];
     ta.mft_next_update = t[2];
     ta.crl_next_update = t[3];
+    if ta_payload {
+        // the ancestor contributes payload of its own (two contributing
+        // points); its EE certificate is never the earliest expiry
+        let mut r0 = ObjSpec::roa("r0", 64496, "10.0.0.0", 16, 16);
+        r0.not_after = Some(10 * H);
+        ta.objs = vec![r0];
+    }
     let mut ca = CaSpec::new("ca1", 1, "ca1.example", "repo");
     ca.v4 = vec![(Ipv4Addr::new(10, 1, 0, 0), 16)];
     ca.asns = vec![(64500, 64505)];
@@ -49,34 +56,39 @@ fn tree(t: &[i64; 11]) -> TreeSpec {
 }
 
 #[derive(Clone, Debug)]
-pub struct CaseSpec { pub t: [i64; 11], pub stored: bool }
+pub struct CaseSpec { pub t: [i64; 11], pub stored: bool,
+    /// the TA publishes a ROA of its own besides the CA certificate
+    pub ta_payload: bool }
 
 pub fn cases(thorough: bool) -> Vec<CaseSpec> {
     let mut res = Vec::new();
     for stored in [false, true] {
         // all equal
-        res.push(CaseSpec { t: [3 * H; 11], stored });
+        res.push(CaseSpec { t: [3 * H; 11], stored, ta_payload: false });
         // exactly one minimum
         for i in 0..11 {
             let mut t = [3 * H; 11]; t[i] = H;
-            res.push(CaseSpec { t, stored });
+            res.push(CaseSpec { t, stored, ta_payload: false });
             let mut t = [2 * H; 11]; t[i] = H;
-            res.push(CaseSpec { t, stored });
+            res.push(CaseSpec { t, stored, ta_payload: false });
         }
         // all pairs of minima
         for i in 0..11 { for j in i + 1..11 {
             let mut t = [3 * H; 11]; t[i] = H; t[j] = 2 * H;
-            res.push(CaseSpec { t, stored });
-            if thorough { let mut t = [3 * H; 11]; t[i] = 2 * H; t[j] = H; res.push(CaseSpec { t, stored }); }
+            res.push(CaseSpec { t, stored, ta_payload: false });
+            if thorough { let mut t = [3 * H; 11]; t[i] = 2 * H; t[j] = H; res.push(CaseSpec { t, stored, ta_payload: false }); }
         }}
     }
+    // the same with an ancestor that contributes payload itself
+    let n = res.len();
+    for i in 0..n { let mut c = res[i].clone(); c.ta_payload = true; res.push(c); }
     if thorough {
         // full product over the nine chain timestamps of the ROA (fetch path)
         for code in 0..3usize.pow(9) {
             let mut t = [3 * H; 11];
             let mut c = code;
             for k in 0..9 { t[k] = H * (1 + (c % 3) as i64); c /= 3; }
-            res.push(CaseSpec { t, stored: false });
+            res.push(CaseSpec { t, stored: false, ta_payload: false });
         }
     }
     res
@@ -84,7 +96,7 @@ pub fn cases(thorough: bool) -> Vec<CaseSpec> {
 
 pub fn run_case(gen: &Gen, dir: std::path::PathBuf, c: &CaseSpec) -> Result<String, (String, String)> {
     let now = Time::now();
-    let image = Builder::at(gen, Stale::Reject, now).build(&tree(&c.t));
+    let image = Builder::at(gen, Stale::Reject, now).build(&tree(&c.t, c.ta_payload));
     let case = Case::new(dir);
     case.publish(&image);
     case.write_tals(&image);
@@ -94,7 +106,7 @@ pub fn run_case(gen: &Gen, dir: std::path::PathBuf, c: &CaseSpec) -> Result<Stri
     if c.stored {
         out = etree::run(&config, true, &LocalExceptions::empty()).map_err(err)?;
     }
-    if out.data.origins.len() != 1 || out.data.aspas.len() != 1 || out.data.keys.len() != 1 {
+    if out.data.origins.len() != 1 + c.ta_payload as usize || out.data.aspas.len() != 1 || out.data.keys.len() != 1 {
         return Err(("setup".into(), format!("{c:?}: not all three objects contributed: {}", out.data.describe())))
     }
     let min = *c.t.iter().min().unwrap();
@@ -145,7 +157,7 @@ pub fn run(ctx: &Ctx) -> Report {
             Ok(o) => rep.outcome(o),
             Err((class, msg)) => {
                 rep.outcome(format!("VIOLATION:{}", class.split(':').next().unwrap()));
-                rep.violation(format!("refresh:{class}"), msg, json!({"t": c.t, "stored": c.stored}));
+                rep.violation(format!("refresh:{class}"), msg, json!({"t": c.t, "stored": c.stored, "ta_payload": c.ta_payload}));
             }
         }
     }
@@ -158,7 +170,7 @@ pub fn replay(ctx: &Ctx, v: &Value) -> Report {
     let mut rep = Report::new("exploration");
     let mut t = [0i64; 11];
     for (i, x) in v["t"].as_array().unwrap().iter().enumerate() { t[i] = x.as_i64().unwrap(); }
-    let c = CaseSpec { t, stored: v["stored"].as_bool().unwrap() };
+    let c = CaseSpec { t, stored: v["stored"].as_bool().unwrap(), ta_payload: v["ta_payload"].as_bool().unwrap_or(false) };
     let r = run_case(&gen, ctx.scratch.join("replay"), &c);
     println!("{c:?}: {r:?}");
     if let Err((class, msg)) = r { rep.violation(format!("refresh:{class}"), msg, v.clone()); }
